@@ -201,7 +201,7 @@ def _run_one(cfg, rec):
                 items.append(("updating twice changes nothing", z3.BoolVal(bool(same)) if not same else z3.BoolVal(True),
                               f"expressions:second-update-changes-{stage_kind}"))
         rec.check_all(ctx, items, wit)
-        rec.sample({"config": cfg["name"], "declaration_order": [_label(cfg, i) for i in cfg["order"]],
+        rec.want_sample() and rec.sample({"config": cfg["name"], "declaration_order": [_label(cfg, i) for i in cfg["order"]],
                     "expressions": {_label(cfg, i): expression(cfg, i)[0] for i in range(n) if cfg["deps"][i]}})
         env = {f"V_{i}": 0.5 + 0.25 * i for i in range(n)}
         env.update({f"U{u}_{i}": 0.3 + 0.2 * i + 0.15 * u for u in range(cfg["updates"]) for i in range(n)})
